@@ -22,7 +22,7 @@ fn speeds(rng: &mut Rng, f1: usize) -> Vec<f64> {
 }
 
 pub fn run(ctx: &mut Ctx) {
-    let n = ctx.n(4000, 400000);
+    let n = ctx.n(12000, 400000);
     ctx.run_cases("estimator", n, false, |ctx, rng, idx| {
         let nstate = rng.range(1, 7);
         let nlab = rng.range(1, (200 / nstate).max(1));
@@ -109,7 +109,7 @@ pub fn run(ctx: &mut Ctx) {
     // end to end on the bundled voice: synthesize length / fperiod and hooked durations
     let env = Env::new(ctx);
     let bundled = env.load_bundled();
-    let n = ctx.n(40, 3000);
+    let n = ctx.n(120, 3000);
     ctx.run_cases("end-to-end", n, false, |ctx, rng, _| {
         let labels = env.corpus.random_utterance(rng, 1, 12);
         let nst = labels.len() * bundled.voices.global_metadata().num_states;
